@@ -20,6 +20,7 @@ Open Scope Z_scope.
 
 Definition atom := Z.
 Definition A_NONE : atom := -3.
+Definition A_FRESH : atom := -4.      (* a container object created by call_class: never identical to an older one *)
 
 Inductive exn := TraitError | UserExn | AttributeError | OtherError.
 Inductive outcome := Ok | Raise (e : exn) | Crashed.   (* Crashed: only ever observed on an implementation *)
@@ -28,7 +29,8 @@ Inductive outcome := Ok | Raise (e : exn) | Crashed.   (* Crashed: only ever obs
 Inductive vres := VSame | VConv (w : atom) | VReject | VRaise.
 (* default value: CONSTANT_DEFAULT_VALUE d, or CALLABLE_DEFAULT_VALUE (_name_default method)
    returning r (a new reference) / raising *)
-Inductive dflt := DConst (d : atom) | DCall (r : option atom).
+Inductive dflt := DConst (d : atom) | DCall (r : option atom)
+                | DObj.   (* TRAIT_LIST/DICT/SET_OBJECT_DEFAULT_VALUE: call_class builds a NEW container object *)
 Inductive post := PNone | POk | PRaise.
 Inductive kind := KTrait | KEvent | KProp.
 
@@ -144,6 +146,9 @@ Definition default_value_for (t : tcfg) (l : ledger) : (option atom * exn) * led
             else (None, e, dec r l2)                                  (* 1896: result = NULL *)
         end
       else (Some r, OtherError, l1)
+  | DObj => (Some A_FRESH, OtherError, inc A_FRESH l)                 (* 1862-1867, 1902-1904: call_class (583-603):
+                                                                        the args tuple takes and releases obj, name,
+                                                                        handler, value; the result is a new reference *)
   end.
 
 Record res := { r_dict : dict; r_out : outcome; r_calls : Z; r_ledger : ledger; r_ret : option atom }.
@@ -253,7 +258,8 @@ Definition delattr_trait (c : cfg) (t : tcfg) (d : dict) (n : Z) : res :=
         match r_ret g with
         | None => mk (r_dict g) (r_out g) (r_calls g) (dec o (r_ledger g)) None      (* 2418-2421 *)
         | Some value =>
-            let changed := t_cmp_none t || negb (o =? value) in        (* 2423-2425 *)
+            let changed := t_cmp_none t || negb (o =? value) || (value =? A_FRESH) in   (* 2423-2425; a freshly
+                                                                        built container is a different object *)
             let '(rc, k, l3) :=
               if changed then
                 match run_post t with
